@@ -190,6 +190,27 @@ def check_sequence(kind, codes, codes2):
             return "copy shares state with the original"
         if str(c) != syms[(codes[0] + 1) % len(syms)] + s1[1:]:
             return "assignment"
+        # every index kind: Python int (any position, negative too), numpy integer, index array, boolean mask
+        new = syms[(codes[-1] + 2) % len(syms)]
+        for k in range(-len(s1), len(s1)):
+            for idx in (k, np.int64(k), np.int32(k)):
+                e = a.copy()
+                e[idx] = new
+                want = list(s1)
+                want[k] = new
+                if str(e) != "".join(want):
+                    return f"assignment at index {idx!r} ({type(idx).__name__}): {str(e)!r}"
+                if a[idx] != s1[k]:
+                    return f"index {idx!r} ({type(idx).__name__})"
+        e = a.copy()
+        e[np.array([0, len(s1) - 1])] = mk(new * 2)
+        want = list(s1)
+        want[0] = want[-1] = new
+        if str(e) != "".join(want) or str(a[np.array([len(s1) - 1, 0])]) != s1[-1] + s1[0]:
+            return f"index array assignment / lookup: {str(e)!r}"
+        mask = np.array([i % 2 == 0 for i in range(len(s1))])
+        if str(a[mask]) != s1[::2]:
+            return "boolean mask lookup"
         d = a.copy()
         d[0:len(s2)] = b[0:len(a)] if len(s2) <= len(s1) else b[0:len(s1)]
         m = min(len(s1), len(s2))
@@ -272,6 +293,11 @@ def check_translate(codes, variant):
         want = "".join(aa(s[k:k + 3]) for k in range(0, len(s), 3))
         if got != want:
             return f"complete translation of {s}: {got} vs {want}"
+    # documented defaults: met_start=False, complete=False
+    dp, dpos = seq.translate(codon_table=table)
+    ep, epos = seq.translate(codon_table=table, met_start=False, complete=False)
+    if [str(x) for x in dp] != [str(x) for x in ep] or [tuple(map(int, x)) for x in dpos] != [tuple(map(int, x)) for x in epos]:
+        return f"translate() with default options differs from met_start=False: {[str(x) for x in dp]} vs {[str(x) for x in ep]}"
     for met in (False, True):
         prots, pos = seq.translate(codon_table=table, met_start=met)
         got = [(int(p[0]), int(p[1]), str(q)) for p, q in zip(pos, prots)]
